@@ -204,7 +204,7 @@ class Check:
             if f is not None:
                 self.known_hits.setdefault(key, f['description'])
                 return False
-        if any(w == what for (w, _, _) in self.violations):
+        if any(w == what for (w, _, _) in self.violations) or len(self.violations) >= 5:
             self.dup_violations = getattr(self, 'dup_violations', 0) + 1
             return True
         path = os.path.join(WORK, 'replays', '%s-%s-%d.json' % (self.pid, self.seed, len(self.violations)))
